@@ -1,3 +1,78 @@
-//! Kani contract harnesses for keys (included from /repo/parser/src/keys/mod.rs under cfg(kani)).
+//! Kani contract harnesses for parser/src/keys (property C11)
+//! (included from /repo/parser/src/keys/mod.rs under cfg(kani)).
 #![allow(unused_imports, dead_code)]
 use super::*;
+
+/// K1 (complete: every u16): whatever code the OS layer accepts survives every conversion:
+/// from_u16(c) = Some(o)  ==>  o.as_u16() = c, KeyCode::from(o) has the same number, and
+/// converting back gives o again.  "The internal and OS code spaces coincide value for value."
+#[kani::proof]
+fn c11_k_code_roundtrip() {
+    let c: u16 = kani::any();
+    if let Some(o) = OsCode::from_u16(c) {
+        assert!(o.as_u16() == c);
+        assert!(u16::from(o) == c);
+        let k: KeyCode = o.into();
+        assert!(k as u16 == c);
+        let back: OsCode = k.into();
+        assert!(back == o);
+        assert!(back.as_u16() == c);
+        let k2: KeyCode = (&o).into();
+        assert!(k2 == k);
+    }
+}
+
+/// K3 (complete: every u16): the set of codes kanata knows is exactly 0..=748 and 767.
+/// (749..=766 are placeholder variants without an OS mapping on the unchanged tree.)
+#[kani::proof]
+fn c11_k_known_codes() {
+    let c: u16 = kani::any();
+    let known = c <= 748 || c == 767;
+    assert!(OsCode::from_u16(c).is_some() == known);
+    kani::cover!(OsCode::from_u16(c).is_some() && c == 767);
+}
+
+/// K2 (complete: every value 0..=767, run with -Z valid-value-checks): the two transmuting
+/// conversions never construct an invalid enum value and preserve the number.
+#[kani::proof]
+fn c11_k_transmute_valid() {
+    let c: u16 = kani::any();
+    kani::assume(c <= 767);
+    let k: KeyCode = unsafe { core::mem::transmute::<u16, KeyCode>(c) };
+    let o: OsCode = k.into();
+    assert!(o as u16 == c);
+    let k2: KeyCode = o.into();
+    assert!(k2 as u16 == c);
+    assert!(k2 == k);
+}
+
+/// must-fail twin of K2: 768 is not a code of either space
+#[kani::proof]
+fn c11_k_transmute_valid_neg() {
+    let c: u16 = kani::any();
+    kani::assume(c <= 768);
+    let k: KeyCode = unsafe { core::mem::transmute::<u16, KeyCode>(c) };
+    let o: OsCode = k.into();
+    assert!(o as u16 == c);
+}
+
+/// the reserved no-op range consists of known codes (so the output filter is about real keys)
+#[kani::proof]
+fn c11_k_ignored_range_known() {
+    let c: u16 = kani::any();
+    kani::assume(c >= 0x2a4 && c <= 0x2ad);
+    assert!(OsCode::from_u16(c).is_some());
+}
+
+/// TryFrom<usize> / From<u32> / From<u16> agree with from_u16 on the known codes
+#[kani::proof]
+fn c11_k_int_conversions() {
+    let c: u16 = kani::any();
+    kani::assume(c <= 748 || c == 767);
+    let a = OsCode::from_u16(c).unwrap();
+    let b: OsCode = OsCode::try_from(c as usize).unwrap();
+    assert!(a == b);
+    assert!(usize::from(a) == c as usize);
+    assert!(u32::from(a) == c as u32);
+    assert!(i32::from(a) == c as i32);
+}
